@@ -1,7 +1,7 @@
 (* PropC12.v — C12: a batch append is all-or-nothing (one call = one entry; the codec validates the whole batch; replay applies all records of an entry or fails; a torn or damaged entry is delivered whole or not at all by the record reader).
    Statements only; each theorem is closed by `exact <lemma>`; proofs live in the imported files. *)
 From Coq Require Import Lia NArith List.
-From MRL Require Import Bytes Params Names Frame Record Mem Rolling Log Driver SpecRefine RecordProofs StreamProofs TornProofs DamageProofs OpenReplay TornFile DamageFile.
+From MRL Require Import Bytes Params Names Frame Record Mem Rolling Log Driver SpecRefine RecordProofs StreamProofs TornProofs DamageProofs OpenReplay TornFile DamageFile CrashCorollaries PersistSurvive CrashAtomic DamageAtomic RestartInv RestartFinal.
 
 (* whatever decodes as an AppendRecords entry is exactly the serialization of the batch it decodes to: no partial batch *)
 Theorem C12_batch_decodes_whole :
@@ -196,4 +196,220 @@ Theorem C12_open_damaged :
     end).
 Proof. exact open_damaged. Qed.
 Print Assumptions C12_open_damaged.
+
+(* specification: in every later state of the incarnation the records of a batch still present are a suffix of the batch (the batch minus a leading part removed by truncation); in every earlier state none *)
+Theorem C12_batch_all_or_nothing_spec :
+    forall (m0 : Spec.smap) (h1 : list Spec.sop) (q : bytes) (pos : option N)
+    (pl : list bytes) (h2 : list Spec.sop) (last : N),
+    QueueIso.s_inv m0 ->
+    let m1 := fst (s_run m0 h1) in
+    snd (Spec.s_step m1 (Spec.SAppend q pos pl)) = Spec.SAppended (Some last) ->
+    let b := last + 1 - lenN pl in
+    let m2 := fst (Spec.s_step m1 (Spec.SAppend q pos pl)) in
+    let h := h1 ++ Spec.SAppend q pos pl :: h2 in
+    forall k : nat,
+    (k <= length h)%nat ->
+    let mk := fst (s_run m0 (firstn k h)) in
+    (k <= length h1)%nat /\
+    (QueueIso.never_deleted q (skipn k h1) (snd (s_run mk (skipn k h1))) ->
+    forall (recs : list (N * bytes)) (next : N),
+    Spec.s_get mk q = Some (recs, next) -> next <= b /\ filter (in_span b (last + 1)) recs = []) \/
+    (length h1 < k)%nat /\
+    (let k2 := (k - S (length h1))%nat in
+    mk = fst (s_run m2 (firstn k2 h2)) /\
+    (QueueIso.never_deleted q (firstn k2 h2) (snd (s_run m2 (firstn k2 h2))) ->
+    exists (recs : list (N * bytes)) (next : N) (j : nat),
+    Spec.s_get mk q = Some (recs, next) /\
+    last < next /\ filter (in_span b (last + 1)) recs = skipn j (Spec.s_number b pl))).
+Proof. exact batch_all_or_nothing_spec. Qed.
+Print Assumptions C12_batch_all_or_nothing_spec.
+
+(* END TO END, crash, any policy: after any crash the recovered records of the batch are none, or all, or all above the highest later truncation - never a hole, never a missing tail *)
+Theorem C12_batch_crash :
+    forall P : params,
+    7 < BS P ->
+    BS P <= 65542 ->
+    1 <= NB P ->
+    (forall (t : byte) (p : bytes), crcf P t p < 2 ^ 32) ->
+    L_GC P = false ->
+    L_IO P = false ->
+    L_SHORT P = false ->
+    no_zero_collision P ->
+    forall (st0 : state) (G0 : ghost),
+    Inv P st0 G0 ->
+    w_pending (s_wr st0) = [] ->
+    forall h : list (op * bool),
+    GhostLog.hist_wf P st0 h ->
+    RestartWrite.stream_bound P G0 (map snd (GhostLog.run_log P st0 h)) ->
+    CB P st0 h ->
+    forall evs : list event,
+    c_ev (w_ctx (s_wr (fst (Hist.run P st0 h)))) = rev evs ++ c_ev (w_ctx (s_wr st0)) ->
+    forall (h1 : list (op * bool)) (q : bytes) (pos : option N) (pl : list bytes)
+    (t : bool) (h2 : list (op * bool)) (last nb : N),
+    h = h1 ++ (OAppend q pos pl, t) :: h2 ->
+    let st1 := fst (Hist.run P st0 h1) in
+    snd (step P st1 (OAppend q pos pl) t) = OutAppend (Some last) nb ->
+    let st2 := fst (step P st1 (OAppend q pos pl) t) in
+    forall (cut k : N) (pol : policy) (hint : list bytes),
+    exists (m : nat) (st_r : state),
+    (m <= length h)%nat /\
+    open P (fold_left apply_event (crash_events evs cut k) (c_fs (w_ctx (s_wr st0)))) None pol hint =
+    OpenOk st_r /\
+    (forall q' : bytes,
+    Spec.s_get (abs_qs (s_qs st_r)) q' =
+    Spec.s_get (abs_qs (s_qs (fst (Hist.run P st0 (firstn m h))))) q') /\
+    batch_at P st0 h1 q pl h2 st2 last m (Spec.s_get (abs_qs (s_qs st_r)) q).
+Proof. exact batch_crash. Qed.
+Print Assumptions C12_batch_crash.
+
+(* if the batch append had persisted before the crash, the batch is there (up to later truncation) *)
+Theorem C12_batch_crash_persisted :
+    forall P : params,
+    7 < BS P ->
+    BS P <= 65542 ->
+    1 <= NB P ->
+    (forall (t : byte) (p : bytes), crcf P t p < 2 ^ 32) ->
+    L_GC P = false ->
+    L_IO P = false ->
+    L_SHORT P = false ->
+    no_zero_collision P ->
+    forall (st0 : state) (G0 : ghost),
+    Inv P st0 G0 ->
+    w_pending (s_wr st0) = [] ->
+    forall h : list (op * bool),
+    GhostLog.hist_wf P st0 h ->
+    RestartWrite.stream_bound P G0 (map snd (GhostLog.run_log P st0 h)) ->
+    CB P st0 h ->
+    forall evs : list event,
+    c_ev (w_ctx (s_wr (fst (Hist.run P st0 h)))) = rev evs ++ c_ev (w_ctx (s_wr st0)) ->
+    forall (h1 : list (op * bool)) (q : bytes) (pos : option N) (pl : list bytes)
+    (t : bool) (h2 : list (op * bool)) (last nb : N) (evs_i : list event),
+    h = h1 ++ (OAppend q pos pl, t) :: h2 ->
+    let st1 := fst (Hist.run P st0 h1) in
+    snd (step P st1 (OAppend q pos pl) t) = OutAppend (Some last) nb ->
+    let st2 := fst (step P st1 (OAppend q pos pl) t) in
+    let b := last + 1 - lenN pl in
+    w_pending (s_wr st2) = [] ->
+    c_ev (w_ctx (s_wr st2)) = rev evs_i ++ c_ev (w_ctx (s_wr st0)) ->
+    forall (cut k : N) (pol : policy) (hint : list bytes),
+    lenN evs_i <= cut ->
+    exists (m : nat) (st_r : state),
+    (length h1 < m)%nat /\
+    (m <= length h)%nat /\
+    open P (fold_left apply_event (crash_events evs cut k) (c_fs (w_ctx (s_wr st0)))) None pol hint =
+    OpenOk st_r /\
+    (let k2 := (m - S (length h1))%nat in
+    QueueIso.log_never_deleted q (firstn k2 h2) (snd (Hist.run P st2 (firstn k2 h2))) ->
+    exists (recs : list (N * bytes)) (next : N) (j : nat),
+    Spec.s_get (abs_qs (s_qs st_r)) q = Some (recs, next) /\
+    last < next /\ filter (in_span b (last + 1)) recs = skipn j (Spec.s_number b pl)).
+Proof. exact batch_crash_persisted. Qed.
+Print Assumptions C12_batch_crash_persisted.
+
+(* the same under Always policies from a fresh directory *)
+Theorem C12_batch_crash_always :
+    forall P : params,
+    7 < BS P ->
+    BS P <= 65542 ->
+    1 <= NB P ->
+    (forall (t : byte) (p : bytes), crcf P t p < 2 ^ 32) ->
+    L_GC P = false ->
+    L_IO P = false ->
+    L_SHORT P = false ->
+    no_zero_collision P ->
+    forall (a : bool) (st0 : state) (h : list hop) (st : state) (outs : list outcome)
+    (o : op) (tick : bool) (st' : state) (out : outcome),
+    open P [] None (PAlways a) [] = OpenOk st0 ->
+    hrun P st0 h = Some (st, outs) ->
+    hist_ok P st0 h ->
+    always_hist a h ->
+    GhostLog.op_wf_strict (s_qs st) o ->
+    crash_phys_bound P (s_wr st) (map snd (GhostLog.step_log P st o)) (abs_qs (s_qs st)) ->
+    crash_phys_bound P (s_wr st) (map snd (GhostLog.step_log P st o)) (abs_qs (s_qs st')) ->
+    step P st o tick = (st', out) ->
+    forall (c1 : list op) (q : bytes) (pos : option N) (pl : list bytes) (c2 : list op) (last nb : N),
+    hcalls h = c1 ++ OAppend q pos pl :: c2 ->
+    nth_error outs (length c1) = Some (OutAppend (Some last) nb) ->
+    QueueIso.log_never_deleted q (RestartCorollaries.hcalls_t h) outs ->
+    let b := last + 1 - lenN pl in
+    exists evs : list event,
+    c_ev (w_ctx (s_wr st')) = rev evs ++ c_ev (w_ctx (s_wr st)) /\
+    (forall (cut k : N) (pol : policy) (hint : list bytes),
+    exists st_r : state,
+    open P (fold_left apply_event (crash_events evs cut k) (c_fs (w_ctx (s_wr st)))) None pol hint =
+    OpenOk st_r /\
+    (QueueIso.l_deleted q (o, tick) out = true /\ Spec.s_get (abs_qs (s_qs st_r)) q = None \/
+    (exists (recs : list (N * bytes)) (next : N) (j : nat),
+    Spec.s_get (abs_qs (s_qs st_r)) q = Some (recs, next) /\
+    last < next /\ filter (in_span b (last + 1)) recs = skipn j (Spec.s_number b pl)))).
+Proof. exact batch_crash_always. Qed.
+Print Assumptions C12_batch_crash_always.
+
+(* END TO END, damage on the batch's own entry: every other retained record is recovered, every recovered record was appended by another entry, and no record of the batch is recovered (unless another entry appended the same record) *)
+Theorem C12_batch_damage_self :
+    forall P : params,
+    7 < BS P ->
+    BS P <= 65542 ->
+    1 <= NB P ->
+    (forall (t : byte) (p : bytes), crcf P t p < 2 ^ 32) ->
+    L_GC P = false ->
+    L_IO P = false ->
+    forall (st : state) (G : ghost) (i : nat) (ex0 ed : bytes) (k : nat) (fs_d : fsT)
+    (q : bytes) (b : N) (recs : list (N * bytes)),
+    Inv P st G ->
+    damaged_dir P st G i (EAppend q b recs) ex0 ed k fs_d ->
+    dmg_bound P st G ->
+    forall (pol : policy) (hint : list bytes),
+    exists (st_r : state) (F : ReplaySpec.tmap),
+    open P fs_d None pol hint = OpenOk st_r /\
+    ReplaySpec.t_replay [] 0 (gh_ALL G) = Some F /\
+    (forall (q' : bytes) (rf : list ReplaySpec.trec) (nf : N),
+    ReplaySpec.t_get F q' = Some (rf, nf) ->
+    forall r : ReplaySpec.trec,
+    In r rf ->
+    fst r <> (gh_k G + i)%nat ->
+    exists m : mq, qs_get (s_qs st_r) q' = Some m /\ In (snd r) (records_of (q_buf m) (q_metas m))) /\
+    (forall (q' : bytes) (m : mq) (rec : N * bytes),
+    qs_get (s_qs st_r) q' = Some m ->
+    In rec (records_of (q_buf m) (q_metas m)) ->
+    exists (idx : nat) (pos : N) (recs' : list (N * bytes)),
+    idx <> (gh_k G + i)%nat /\ nth_error (gh_ALL G) idx = Some (EAppend q' pos recs') /\ In rec recs') /\
+    ((forall (idx : nat) (pos : N) (recs' : list (N * bytes)),
+    idx <> (gh_k G + i)%nat ->
+    nth_error (gh_ALL G) idx = Some (EAppend q pos recs') ->
+    forall rec : N * bytes, In rec recs -> ~ In rec recs') ->
+    forall (m : mq) (rec : N * bytes),
+    qs_get (s_qs st_r) q = Some m -> In rec recs -> ~ In rec (records_of (q_buf m) (q_metas m))).
+Proof. exact batch_damage_self. Qed.
+Print Assumptions C12_batch_damage_self.
+
+(* damage on another entry: every retained record of the batch is recovered *)
+Theorem C12_batch_damage_other :
+    forall P : params,
+    7 < BS P ->
+    BS P <= 65542 ->
+    1 <= NB P ->
+    (forall (t : byte) (p : bytes), crcf P t p < 2 ^ 32) ->
+    L_GC P = false ->
+    L_IO P = false ->
+    forall (st : state) (G : ghost) (i : nat) (X : entry) (ex0 ed : bytes) (k : nat)
+    (fs_d : fsT) (j : nat) (fB : N) (q : bytes) (b : N) (recs : list (N * bytes)),
+    Inv P st G ->
+    damaged_dir P st G i X ex0 ed k fs_d ->
+    dmg_bound P st G ->
+    nth_error (gh_E G) j = Some (fB, EAppend q b recs) ->
+    j <> i ->
+    forall (pol : policy) (hint : list bytes),
+    exists (st_r : state) (F : ReplaySpec.tmap),
+    open P fs_d None pol hint = OpenOk st_r /\
+    ReplaySpec.t_replay [] 0 (gh_ALL G) = Some F /\
+    (forall (rf : list ReplaySpec.trec) (nf : N),
+    ReplaySpec.t_get F q = Some (rf, nf) ->
+    forall r : ReplaySpec.trec,
+    In r rf ->
+    fst r = (gh_k G + j)%nat ->
+    In (snd r) recs /\
+    (exists m : mq, qs_get (s_qs st_r) q = Some m /\ In (snd r) (records_of (q_buf m) (q_metas m)))).
+Proof. exact batch_damage_other. Qed.
+Print Assumptions C12_batch_damage_other.
 
